@@ -370,6 +370,7 @@ impl<Config, State> BaseTokenizer<Config, State> {
 //@rule R11(s)
 //@rule R11_open(s)
 //@rule R11_str(s)
+    #[verifier::loop_isolation(false)]
     fn split_input<'a>(&self, s: &'a str, ignore_special_tokens: bool) -> (r: Vec<TokenInput<'a>>)
         ensures self.split_ok(s@, ignore_special_tokens, parts_of(r@)),
     {
@@ -501,6 +502,7 @@ impl ByteTokenizer {
 //@rule R6_byte_process
 //@rule R15_for
 //@rule R16(re:self\.split_input\([^()]*\) ;; vt_parts)
+    #[verifier::loop_isolation(false)]
     fn process_input(
         &self,
         s: &str,
@@ -664,6 +666,7 @@ impl ByteTokenizer {
 //@unit src/tokenization.rs fn de_tokenize impl=^impl\sTokenize\sfor\sByteTokenizer$
 //@rule R4
 //@rule R6_extend_as_bytes
+    #[verifier::loop_isolation(false)]
     fn de_tokenize(
         &self,
         token_ids: &[u32],
